@@ -149,7 +149,7 @@ PROPS["C02"] = dict(
     assumptions=["positions handed out by the badger Sequence strictly increase per dataset (gaps allowed)"],
     level_text="Proof: under the refinement invariant the change log read in key order is the specification's feed (changesOf_eq_feedOf, feed_eq_versions), each accepted "
                "version adds exactly one entry and a redundant write none (feed_step + refinement); for every since, every list of limits and with or without latest-only the "
-               "pages obtained by following the tokens plus a final unlimited read are exactly the entries from since — nothing skipped or repeated (resume_exact, over any "
+               "pages obtained by following the tokens plus a final unlimited read are exactly the entries from since — nothing skipped or repeated, in every state reachable by any history of batches and multi-dataset transactions (feed_reachable over txns_refine) (resume_exact, over any "
                "strictly increasing positions); a token at the end returns nothing and itself (token_at_end); latest-only = the feed filtered to current versions (latest_only).",
     level_note="Trusted: Lean kernel, factgen, badger. Interleaved readers: each page is one snapshot and the feed is append-only in position order (invariant feedInc/feedBound).",
 )
@@ -163,7 +163,7 @@ PROPS["C03"] = dict(
     trusted=STORE_TRUST,
     assumptions=["per-page order of results is canonicalised (Go map iteration)"],
     level_text="Proof (PARTIAL): for one write the reference index keeps 'newest key <= at is live' equal to 'last version <= at is live and carries the reference' for every reference "
-               "and instant, including the in-batch tombstone removal (index_step, proved on the per-(dataset, referencing entity) index model whose algorithm Hub.Store.writeRefs repeats); "
+               "and instant, including the in-batch tombstone removal (index_step, proved on the per-(dataset, referencing entity) index model whose algorithm Hub.Store.writeRefs repeats; index_history lifts it by induction to every history of versions with non-decreasing commit times, in-batch predecessors included); "
                "the unpaged outgoing scan — reverse iteration with its seen/added sets — returns a pair exactly once, iff for some in-scope non-deleted dataset the newest key of "
                "(source, predicate, target, dataset) recorded <= at is live, for every database, predicate filter, instant and scope (outgoing_unpaged); together: under the index invariant the "
                "outgoing query equals the graph implied by the latest versions (outgoing_eq_graph); a page with any limit is a window of the unpaged result and following the continuation "
